@@ -8,6 +8,7 @@ import (
 
 func init() {
 	vHarnesses["VerifH_C12_loop"] = VerifH_C12_loop
+	vHarnesses["VerifH_C12_twojumps"] = VerifH_C12_twojumps
 }
 
 // VerifH_C12_loop: V().set(c,c0).mark(m).increment(c,1).jump(m, lt(c,D), emit)
@@ -71,4 +72,58 @@ func VerifH_C12_loop() {
 		vAssert("C12.row-is-a-pass", ok)
 	}
 	vAssert("C12.no-goroutine-left", vBlockedGoroutines() == 0)
+}
+
+// VerifH_C12_twojumps: two jumps feed one mark:
+// V().mark(m).increment(c,1).jump(m, gt(c,100), emit).jump(m, lt(c,D), emit2).
+// The first jump never fires but takes part in the shutdown protocol (the mark
+// waits for the echo of its signal from every jump); the second one drives the
+// loop. Rows: one per pass when emit2 is on, none otherwise.
+func VerifH_C12_twojumps() {
+	K := 1 + vChoice("vertices", vParam("K", 1))
+	D := 1 + vChoice("depth", vParam("D", 3))
+	emit := vChoice("emit", 2) == 1
+	g := &vGraph{honourLoad: false}
+	for i := 0; i < K; i++ {
+		g.vs = append(g.vs, &gdbi.Vertex{ID: "v" + string(rune('0'+i)), Label: "L", Data: map[string]interface{}{"c": float64(0)}, Loaded: true})
+	}
+	g.compiler = func(g *vGraph) gdbi.Compiler { return NewCompiler(g, IndexStartOptimize) }
+	cond := func(op gripql.Condition, v float64) *gripql.HasExpression {
+		return &gripql.HasExpression{Expression: &gripql.HasExpression_Condition{Condition: &gripql.HasCondition{Key: "c", Condition: op, Value: structpb.NewNumberValue(v)}}}
+	}
+	stmts := []*gripql.GraphStatement{
+		sV(),
+		{Statement: &gripql.GraphStatement_Mark{Mark: "m"}},
+		{Statement: &gripql.GraphStatement_Increment{Increment: &gripql.Increment{Key: "c", Value: 1}}},
+		{Statement: &gripql.GraphStatement_Jump{Jump: &gripql.Jump{Mark: "m", Emit: true, Expression: cond(gripql.Condition_GT, 100)}}},
+		{Statement: &gripql.GraphStatement_Jump{Jump: &gripql.Jump{Mark: "m", Emit: emit, Expression: cond(gripql.Condition_LT, float64(D))}}},
+	}
+	pipe, err := g.Compiler().Compile(stmts, nil)
+	vAssert("C12.two.compiles", err == nil)
+	if err != nil {
+		return
+	}
+	rows := vRunPipe(g, pipe, 4)
+	vReach("c12.two.closed")
+	want := 0
+	if emit {
+		want = K * D
+	}
+	vAssert("C12.two.row-count", len(rows) == want)
+	// each start vertex is emitted once with every counter value 1..D
+	for i := 0; i < K; i++ {
+		for c := 1; emit && c <= D; c++ {
+			n := 0
+			for _, r := range rows {
+				v := r.GetVertex()
+				if v != nil && v.Gid == "v"+string(rune('0'+i)) {
+					if cv, isNum := v.Data.AsMap()["c"].(float64); isNum && int(cv) == c {
+						n++
+					}
+				}
+			}
+			vAssert("C12.two.once-per-pass", n == 1)
+		}
+	}
+	vAssert("C12.two.no-goroutine-left", vBlockedGoroutines() == 0)
 }
